@@ -43,6 +43,7 @@ type World struct {
 	sumMemo   map[sumKey]int
 	defsMemo  map[*FuncInfo]*funcDefs
 	condAtoms map[string]map[string]bool
+	deep      deepState
 	astSites  map[string][]astCallSite
 	newParams map[types.Object]newParam
 }
